@@ -135,6 +135,13 @@ static void *reader(void *arg)
 static void *updater(void *arg)
 {
 	int u = (int)(long)arg, k, r;
+	if (use_sig) {
+		/* C19: a handler using RCU may hit a thread that has never used RCU itself (bp registers lazily, inside the handler's
+		 * rcu_read_lock()); synchronize_rcu() must therefore run with signals blocked, otherwise the handler's registration
+		 * self-deadlocks on rcu_registry_lock held by the interrupted grace period */
+		my_r = 0;
+		vrt_set_sighandler(handler);
+	}
 	for (k = 1; k <= uops; k++) {
 		long call_time;
 		vrt_point();
@@ -151,6 +158,10 @@ static void *updater(void *arg)
 		vrt_point();
 		Y[u] = k;
 		vrt_log("DST Y%d %d", u, k);
+	}
+	if (use_sig) {
+		vrt_set_sighandler(NULL);
+		vrt_log("READER_DONE");	/* a handler may have registered this thread: the key destructor unregisters it */
 	}
 	return NULL;
 }
